@@ -10,11 +10,12 @@ SPEC = {
     "streams": [
         {"kind": "DOC", "type": "(N * str * outcome (list pdef))", "eval": "check_doc", "per_shard": 40},
         {"kind": "TNEW", "type": "(str * option ptype)", "eval": "check_tnew", "per_shard": 400},
-        {"kind": "SDL", "type": "(str * outcome (list (N * str * option str)))", "eval": "check_sdl", "per_shard": 40},
+        {"kind": "SDL", "type": "(str * outcome (list sdef))", "eval": "check_sdl", "per_shard": 40},
     ],
     "classes": {1: "block-string-escaped-triple-quote-kept", 2: "block-string-short-blank-line-kept",
-                3: "type-inner-ignored-rejected", 4: "token-boundary-missing", 5: "float-out-of-range-rejected"},
-    "n_quick": 300, "n_thorough": 6000,
+                3: "type-inner-ignored-rejected", 4: "token-boundary-missing", 5: "float-out-of-range-rejected",
+                6: "directive-always-repeatable", 7: "variable-directives-before-default"},
+    "n_quick": 120, "n_thorough": 480,
     "level": "proof",
     "what_violation": "parse result (accept/reject or tree) differs from what the document denotes",
     "rule": ("fixed corpus (witnesses of the findings, nesting 63..70, duplicate/anonymous operation rules, number range boundaries) + "
